@@ -25,7 +25,8 @@ def copy(arr):
 
 
 def tobytes(arr):
-    if isinstance(arr, np.ndarray):
+    # np.generic: a factor whose whole scope was summed out holds a numpy scalar.
+    if isinstance(arr, (np.ndarray, np.generic)):
         return arr.tobytes()
     else:
         return arr.numpy(force=True).tobytes()
